@@ -8,6 +8,12 @@ ENGINES = [
 ]
 NOT_APPLICABLE = {}
 CLAIMED = {
+ "C19": {
+  "engine": "tlc + csl-conform (spec/trace/Trace_TxBuilder.tla collateral state machine, spec/lib/LedgerRules.tla, Value.tla)",
+  "technique": "the collateral fields are a state machine in the L0 trace spec (unset / set by helper / raw setter / failed helper); for every transaction built with helper-set fields TLC sums the collateral inputs from the scenario's UTxO environment and checks, on the emitted bytes, inputs = return + total as whole values, min-ADA of the return output, total*100 >= fee*pct for the percentage helper, and that a failed helper leaves neither field in the body",
+  "text": "Trace validation over seeded random histories (about 800 collateral scenarios quick) covering return outputs with assets equal/fewer/more/different than the inputs', totals above/below the inputs, percentages 1..1000, both orders of collateral vs balancing.",
+  "note": "Trusted: as C05. Apalache run on the collateral equation (DESIGN) not built. Raw setters are exercised only to move the state machine to 'raw' (no obligation).",
+ },
  "C05": {
   "engine": "tlc + csl-conform (spec/lib/LedgerRules.tla, CBOR.tla, Value.tla; spec/sys/TxBuilder.tla; spec/mc/MC_TxBuilder.tla; spec/trace/Trace_TxBuilder.tla; harness builder driver)",
   "technique": "L1 TLA+ model of the builder's accounting model-checked against Balanced for every order of issuing up to 4-5 operations; each model history and seeded random histories are replayed on the real TransactionBuilder; TLC parses the BYTES of every transaction built after a successful balancing call with its own CBOR grammar, values inputs in the scenario's UTxO environment, recomputes deposits/refunds with its own ledger table and checks consumed = produced for lovelace and every asset",
